@@ -187,4 +187,59 @@ def docMatch (o : DocOpts) (g : List Nat) (p : Bytes) : Bool :=
   | none => false
   | some alts => alts.any fun a => atomsMatch o a p
 
+/-! ### characters beyond ASCII, and `**` outside its three legal places
+
+The documentation speaks of characters: "`?` matches any single character", "`[ab]` matches `a` or `b` where `a` and
+`b` are characters".  The grammar above is restricted to ASCII (there a character is a byte); the two sentences are
+stated separately here for globs that are a single `?` or a single positive class, and paths that are one
+character in UTF-8.  And: "Using `**` anywhere else is illegal (N.B. the glob `**` is allowed …)". -/
+
+def cont (b : Nat) : Bool := 0x80 ≤ b && b ≤ 0xBF
+
+/-- the path is exactly one character (one well-formed UTF-8 sequence): its code point -/
+def oneChar : Bytes → Option Nat
+  | [a] => if a < 0x80 then some a else none
+  | [a, b] => if 0xC2 ≤ a && a ≤ 0xDF && cont b then some ((a - 0xC0) * 64 + (b - 0x80)) else none
+  | [a, b, c] =>
+    if 0xE0 ≤ a && a ≤ 0xEF && cont b && cont c && !(a == 0xE0 && b < 0xA0) && !(a == 0xED && b > 0x9F) then
+      some ((a - 0xE0) * 4096 + (b - 0x80) * 64 + (c - 0x80))
+    else none
+  | [a, b, c, d] =>
+    if 0xF0 ≤ a && a ≤ 0xF4 && cont b && cont c && cont d && !(a == 0xF0 && b < 0x90) && !(a == 0xF4 && b > 0x8F) then
+      some ((a - 0xF0) * 262144 + (b - 0x80) * 4096 + (c - 0x80) * 64 + (d - 0x80))
+    else none
+  | _ => none
+
+/-- the glob `?` (`members = none`) or the glob `[m₁m₂…]` (`members = some [m₁, m₂, …]`, single characters, not
+negated, no ranges) on a path that is one character: `?` matches it (unless it is the separator under
+`literal_separator`), the class matches it iff it is listed -/
+def docOneChar (ls : Bool) (members : Option (List Nat)) (p : Bytes) : Bool :=
+  match oneChar p with
+  | none => false
+  | some c =>
+    match members with
+    | none => !(ls && c == 47)
+    | some ms => ms.contains c
+
+/-- a run of two or more `*` outside classes and escapes that is not one of the legal forms: exactly `**`, at the
+start of the glob or after `/`, and at the end of the glob or before `/`.  (Globs with braces are left alone.) -/
+def illegalDstar (be : Bool) (g : List Nat) : Bool :=
+  let rec go : Nat → List Nat → Bool → Bool
+    -- fuel, rest, previous character was the start or a separator
+    | 0, _, _ => false
+    | _ + 1, [], _ => false
+    | f + 1, 92 :: _ :: rest, _ => if be then go f rest false else go f rest false
+    | f + 1, 91 :: rest, _ =>
+      -- skip a class: an optional `!`/`^`, an optional first `]`, up to the closing `]`
+      let r1 := match rest with | 33 :: r => r | 94 :: r => r | r => r
+      let r2 := match r1 with | 93 :: r => r | r => r
+      go f ((r2.dropWhile (· != 93)).drop 1) false
+    | f + 1, 42 :: 42 :: rest, prevSep =>
+      let more := rest.takeWhile (· == 42)
+      let after := rest.dropWhile (· == 42)
+      if !more.isEmpty || !prevSep || !(after.isEmpty || after.head? == some 47) then true
+      else go f after false
+    | f + 1, c :: rest, _ => go f rest (c == 47)
+  !(g.contains 123) && go (g.length + 1) g true
+
 end RgVerif.GlobDoc
